@@ -873,8 +873,11 @@ func (t *wordMatchTree) matches(cp *contentProvider, cost int, known map[matchTr
 				byteMatchSz: uint32(len(t.word)),
 				fileName:    t.fileName,
 			})
+			offset += idx + len(t.word)
+		} else {
+			// An occurrence overlapping this one may still be a word.
+			offset += idx + 1
 		}
-		offset += idx + len(t.word)
 	}
 
 	t.found = found
